@@ -1,6 +1,7 @@
 """Per-property recipes.  Each takes a pipeline.Run and returns the exit code."""
 import json
 import os
+import shutil
 
 import pipeline
 from pipeline import finish
@@ -549,6 +550,15 @@ def x06(run):
     neg = run.mc("LogMutex", "MC_LogMutex_neg.cfg", expect_fail=True)
     if neg["ok"]:
         raise pipeline.Infra("negative control MC_LogMutex_neg did not fail: 'Locking' lines would prove exclusion")
+    if run.tier == "thorough":
+        # unbounded number of operations: the safety properties as an inductive invariant (Apalache), with a broken
+        # AcquireR (no writer test) as the negative control
+        for m in ("LogMutexInd", "LogMutexIndBroken"):
+            shutil.copy(os.path.join(pipeline.VERIF, "spec", m + ".tla"), os.path.join(run.dir, m + ".tla"))
+        run.apalache("LogMutexInd", "Init", "IndInv", 0)
+        run.apalache("LogMutexInd", "IndInit", "IndInv", 1)
+        if run.apalache("LogMutexIndBroken", "IndInit", "IndInv", 1, expect_fail=True):
+            raise pipeline.Infra("negative control LogMutexIndBroken passed: the inductive invariant does not constrain AcquireR")
     binary = run.build(tags="verif mutexlog", pkg="./mutexlog", out_name="mlog")
     trace, _ = run.exec("X06", binary=binary)
     vout = trace + ".acc"
